@@ -119,3 +119,7 @@ FINDINGS += [
 FINDINGS += [
  F("C06", "C06 GT.IsInSubGroup(0) is true (bn254, bls12-377, bls24-315, bw6-761, bw6-633)", "d82b8dc", "E12/E24/E6.IsInSubGroup reported the zero element (not a unit, accepted by SetBytes) as a member of GT on bn254, bls12-377, bls24-315, bw6-761 and bw6-633: every test is of the form Frobenius^i(z) == chain(z) and both sides are 0", "C06 bn254 E12 insub 0,0,0,0,0,0,0,0,0,0,0,0", "ecc/*/internal/fptower/e12.go|e24.go|e6.go IsInSubGroup"),
 ]
+
+FINDINGS += [
+ F("C17", "C17 shplonk: claimed values not bound to gamma (overlapping opening sets)", "420bc96", "shplonk BatchOpen/BatchVerify derived the folding challenge gamma from the points and digests only; when a point belongs to two opening sets the false values y0 = f0(x)+d, y1 = f1(x)-d/gamma (chosen after reading gamma) verified without any trapdoor (7 curves; reported by the round-2 C17 seeding agent as a side observation on the clean tree)", "C17 shplonk bn254 ... mut=overlap i=0 j=0 m=<d>   (Go 1 before the fix; specification 0)", "ecc/*/shplonk/shplonk.go deriveChallenge, BatchOpen, BatchVerify"),
+]
